@@ -8,6 +8,10 @@ import sys
 import threading
 
 
+class DeadlockAbort(BaseException):
+    """raised inside a thread that waits for a lock nobody will ever release, so that a deadlocked schedule ends at once"""
+
+
 class Sched:
     def __init__(self, plan, opcodes=False):
         self.plan = dict(plan)
@@ -79,6 +83,8 @@ class Sched:
                 sys.settrace(tracer)
                 try:
                     body()
+                except DeadlockAbort:
+                    pass
                 except BaseException as e:  # noqa
                     self.errors.append((tid, type(e).__name__, str(e)[:80]))
                 finally:
@@ -107,8 +113,12 @@ class SLock:
         tid = self.s.tid()
         self.s.yield_point(tid)
         while self.held:
+            if self.s.deadlock:
+                raise DeadlockAbort()
             self.s.blocked[tid] = self
             self.s.yield_point(tid)
+            if self.held and self.s.deadlock:
+                raise DeadlockAbort()
         self.s.blocked.pop(tid, None)
         self.held = True
         self.owner = tid
